@@ -202,6 +202,21 @@ def gate(vfiles=None):
         txt = re.sub(r"\(\*.*?\*\)", " ", txt, flags=re.S)
         for m in FORBIDDEN.finditer(txt):
             bad.append("%s: %s" % (os.path.relpath(f, COQ), m.group(0)))
+        # Variable / Hypothesis / Context outside a Section declare axioms
+        stack = []
+        for sentence in re.split(r"\.\s", txt):
+            st = sentence.strip()
+            m = re.match(r"(Section|Module Type|Module)\s+([A-Za-z0-9_']+)\s*(:=)?", st)
+            if m and not m.group(3):
+                stack.append((m.group(1)[0], m.group(2)))
+                continue
+            m = re.match(r"End\s+([A-Za-z0-9_']+)$", st)
+            if m and stack:
+                stack.pop()
+                continue
+            if re.match(r"(Local\s+|Global\s+)?(Variable|Variables|Hypothesis|Hypotheses|Context)\b", st) \
+                    and not any(k == "S" for k, _ in stack):
+                bad.append("%s: %s outside a section" % (os.path.relpath(f, COQ), st.split()[0]))
     return bad
 
 
